@@ -213,6 +213,24 @@ def eval_fixed(case):
                     viols.append({'kind': 'gmt-plus-h-sign', 'string': s, 'posix_offset': flag, 'got': got, 'expected': exp})
             except Exception as e:
                 viols.append({'kind': 'valid-string-rejected', 'string': s, 'zone_class': 'tzstr', 'error': repr(e)[:100]})
+    elif kind == 'name-only':
+        # A name without an offset: the statement leaves open whether that is a fixed-offset zone or a malformed
+        # string, but not that some other exception escapes or that the result has daylight time.
+        _, s = case
+        for flag in (False, True):
+            n += 1
+            try:
+                z = tz.tzstr(s, posix_offset=flag)
+            except ValueError:
+                continue
+            except Exception as e:
+                viols.append({'kind': 'malformed-wrong-exception', 'string': s, 'posix_offset': flag, 'error': repr(e)[:100]})
+                continue
+            got = [answer(z, u) for u in probes]
+            if len(set(g[0] for g in got)) != 1 or any(g[2] for g in got):
+                viols.append({'kind': 'fixed-offset-string-wrong', 'string': s, 'zone_class': 'tzstr', 'got': got[0], 'expected': 'one offset, no dst'})
+            elif s in ('UTC', 'GMT') and got[0][0] != 0:
+                viols.append({'kind': 'fixed-offset-string-wrong', 'string': s, 'zone_class': 'tzstr', 'got': got[0], 'expected': (0, s, False)})
     else:
         _, s = case
         n += 1
@@ -247,7 +265,8 @@ def run(ctx):
     shs = pm.shapes(k)
     ctx.explore('specs-' + ctx.tier, shs, 'eval_spec', chunk=8, setup_arg=ctx.thorough,
                 space_size=shape.space_size(pm.MENUS, k))
-    fixed = [('fixed',) + f for f in FIXED] + [('gmt',) + g for g in GMTLIKE] + [('malformed', m) for m in MALFORMED]
+    fixed = [('fixed',) + f for f in FIXED] + [('gmt',) + g for g in GMTLIKE] + [('malformed', m) for m in MALFORMED] + \
+            [('name-only', nm) for nm in ('UTC', 'GMT', 'EST', 'Z', 'utc', 'UT')]
     ctx.explore('fixed-gmt-malformed', fixed, 'eval_fixed', serial=True)
     ctx.coverage_extra.update({
         'reference_crosscheck': ctx.counts['reference_vs_glibc_mismatch'],
